@@ -27,10 +27,10 @@ CHECKS = {
    technique="explicit-state BFS plus an exhaustive probe set (all 256 message types x server-id shapes x interfaces x clients, header variants, ciaddr set/unset for the types that read it) applied to every reachable state up to the probe depth",
    text="Every reachable store up to the probe depth is hit with every message-type value, malformed type options and server-id shapes; replies only for DISCOVER/REQUEST-for-us, unchanged store otherwise, echo fields and server identifier on every reply.",
    note="A server-identifier option whose length is not 4 is treated as don't-care (the statement does not define it)."),
- "C12": dict(level="exploration", engine="E-ENUM", design="5/C12",
-   technique="bounded-exhaustive enumeration: all 65536 flag values, all payload lengths 0..1472, option-length/header products, against independent RFC 2131/3396 and Ethernet/IPv4/UDP decoders",
+ "C12": dict(level="exploration", engine="E-ENUM + E-WIRE", design="5/C12",
+   technique="bounded-exhaustive enumeration: all 65536 flag values, all payload lengths 0..1472, checksum word sweeps (all 65536 values of a payload word / address half), option-length/header products, against independent RFC 2131/3396 and Ethernet/IPv4/UDP decoders; plus E-WIRE: every 2-message (thorough 3) history of real client frames against the real DhcpService on a veth pair, reply frames captured and dissected",
    text="The flag predicate is decided for every 16-bit value; frame construction for every payload length; encode/decode for the full product of boundary header/field lengths and all option sets of size <=3 over boundary value lengths (0..1500), each encoding also read by an independent decoder, plus hand-encoded repeated/zero-length/padded option wire images.",
-   note="The broadcast-vs-unicast destination choice sits inline in DhcpService::recvdhcp behind a raw socket and is not executed; only its predicate is. A transmitted UDP checksum 0 is accepted."),
+   note="The destination choice and framing call inline in DhcpService::recvdhcp are executed by the wire part (real frames on a veth pair); relayed replies (giaddr) and fragmented frames are not. A transmitted UDP checksum 0 is accepted."),
  "C14": dict(level="exploration", engine="E-ENUM", design="5/C14",
    technique="bounded-exhaustive enumeration of structured messages (name-sharing patterns, every first-written offset around 0x4000 and 0xffxx) and single-octet-exhaustive mutations of their encodings, through the real parser/serialiser and an independent strict decoder",
    text="Every structured message of the grammar and every accepted mutated byte string is encoded by the real serialiser, decoded by the real parser (must equal) and by an independent strict decoder (counts, no trailing octets, pointers strictly backwards and < 0x4000, RDLENGTH = typed rdata).",
@@ -43,10 +43,10 @@ CHECKS = {
    technique="bounded-exhaustive byte-string enumeration (all strings <=3 octets; seeds x every offset x all 256 values; all marked-field pairs x boundary values; every truncation) through the real decoders and receive-path code, panic hook + overflow checks on",
    text="Every network-facing decoder plus the code its receive path runs on the decoded value (handle_pkt, option logging, reply framing; DNS accessors used by listener, cache and upstream-result paths; LLDP TLV logging) is run on the whole enumerated input set; any panic/overflow/out-of-bounds is a violation; afterwards each handler must still answer a valid request.",
    note="Runs in a supervised child process: an abort (stack overflow) or a hang (120 s per input) is reported as a violation naming the input. The LLDP 14-octet frame skip and socket loops are not executed. Log statements are formatted (trace logger installed)."),
- "C17": dict(level="exploration", engine="E-ENUM", design="5/C17",
-   technique="bounded-exhaustive enumeration of interface configurations (full product inside each option group x top-level defaults x 3 base contexts) through the real YAML loader, builder and serialiser, decoded by an independent RFC 4861/8106/8781/8910 decoder and compared with expected(config)",
+ "C17": dict(level="exploration", engine="E-ENUM + E-WIRE", design="5/C17",
+   technique="bounded-exhaustive enumeration of interface configurations (full product inside each option group x top-level defaults x 3 base contexts) through the real YAML loader, builder and serialiser, decoded by an independent RFC 4861/8106/8781/8910 decoder and compared with expected(config); plus E-WIRE: the real RaAdvService on a veth pair under three default-route environments, solicited with real RS frames, advertisements captured on the wire and judged by the same decoder",
    text="Every configuration of the grammar is loaded by the real loader, built and serialised by the real code and decoded by an independent decoder that enforces 8-octet alignment, zero reserved fields and zero prefix bits beyond the length; decoded values must equal what the configuration means, unrepresentable values may only be rejected or clamped.",
-   note="The hook verif_build repeats the two small matches of build_announcement that pick mtu/lifetime from netinfo; RA emission on the wire is not executed. Default RDNSS/DNSSL lifetimes are don't-care."),
+   note="Function part: the hook verif_build repeats the two small matches of build_announcement that pick mtu/lifetime from netinfo; the wire part executes the real build_announcement, handle_solicit and raw transmit. Unsolicited (timer-driven) advertisements are not exercised. Default RDNSS/DNSSL lifetimes are don't-care."),
  "C03": dict(level="exploration", engine="E-NET", design="5/C03",
    technique="exhaustive enumeration of fault-free (query shape x upstream reply shape) exchanges executed against the live in-process DnsService on loopback under a paused clock, judged by an independent DNS decoder",
    text="Each execution starts a fresh real DnsService, sends one real query over UDP or TCP, lets a scripted upstream answer with an independently encoded reply and compares what the client receives, record for record and section for section, with what the upstream sent.",
@@ -130,6 +130,7 @@ def main():
             {"name": "E-HIST", "path": "harness/src/ehist.rs", "serves_properties": ["C01", "C09", "C10", "C13", "C18", "C20"], "kind_free_text": "explicit-state BFS; transitions are calls of the real handler on the real SQLite store"},
             {"name": "E-NET", "path": "harness/src/enet.rs", "serves_properties": ["C03", "C04", "C06", "C07", "C08", "C15", "C16"], "kind_free_text": "event-order exploration of the in-process DNS service on loopback under a paused tokio clock"},
             {"name": "E-CRASH", "path": "harness/src/ecrash.rs", "serves_properties": ["C18"], "kind_free_text": "kill-point enumeration at every SQLite write-class syscall"},
+            {"name": "E-WIRE", "path": "harness/src/ewire.rs", "serves_properties": ["C12", "C17"], "kind_free_text": "the real DHCP and RA services on one end of a veth pair in a private network namespace, driven with real Ethernet frames from the other end; reply frames / advertisements captured and dissected"},
             {"name": "E-ENUM", "path": "harness/src/checks", "serves_properties": ["C02", "C05", "C08", "C11", "C12", "C14", "C17", "C19"], "kind_free_text": "bounded-exhaustive input/configuration enumeration against independent reference decoders/models"},
         ],
         "checks": checks,
